@@ -1088,9 +1088,7 @@ func runCase(in caseIn) (res *result) { //nolint:cyclop,gocyclo,gocognit,maintid
 	// ---- RTP / RTCP reads
 	doReads := func(ops []readIn, rd interceptor.RTPReader, rtcpSide bool) []robs {
 		out := []robs{}
-		for i := range buf {
-			buf[i] = 0xEE
-		}
+		buf = bytes.Repeat([]byte{0xEE}, 2048)
 		for i, op := range ops {
 			// every read gets a buffer of its own (re-read after Close); it starts with what the
 			// previous read left behind, as if the application had reused one buffer
